@@ -179,20 +179,42 @@ void eb_mul_pre_basic(eb_t *t, const eb_t p) {
 }
 
 void eb_mul_fix_basic(eb_t r, const eb_t *t, const bn_t k) {
+	bn_t n, m;
+
 	if (bn_is_zero(k)) {
 		eb_set_infty(r);
 		return;
 	}
 
-	eb_set_infty(r);
-	for (int i = 0; i < bn_bits(k); i++) {
-		if (bn_get_bit(k, i)) {
-			eb_add(r, r, t[i]);
+	bn_null(n);
+	bn_null(m);
+
+	RLC_TRY {
+		bn_new(n);
+		bn_new(m);
+
+		/* The table holds 2^i * P for i below the bits of the order. */
+		eb_curve_get_ord(n);
+		bn_abs(m, k);
+		bn_mod(m, m, n);
+
+		eb_set_infty(r);
+		for (int i = 0; i < bn_bits(m); i++) {
+			if (bn_get_bit(m, i)) {
+				eb_add(r, r, t[i]);
+			}
+		}
+		eb_norm(r, r);
+		if (bn_sign(k) == RLC_NEG) {
+			eb_neg(r, r);
 		}
 	}
-	eb_norm(r, r);
-	if (bn_sign(k) == RLC_NEG) {
-		eb_neg(r, r);
+	RLC_CATCH_ANY {
+		RLC_THROW(ERR_CAUGHT);
+	}
+	RLC_FINALLY {
+		bn_free(n);
+		bn_free(m);
 	}
 }
 
@@ -240,7 +262,7 @@ void eb_mul_pre_combs(eb_t *t, const eb_t p) {
 
 void eb_mul_fix_combs(eb_t r, const eb_t *t, const bn_t k) {
 	int i, j, l, w, n, p0, p1;
-	bn_t ord;
+	bn_t ord, m;
 
 	if (bn_is_zero(k)) {
 		eb_set_infty(r);
@@ -248,21 +270,27 @@ void eb_mul_fix_combs(eb_t r, const eb_t *t, const bn_t k) {
 	}
 
 	bn_null(ord);
+	bn_null(m);
 
 	RLC_TRY {
 		bn_new(ord);
+		bn_new(m);
 
 		eb_curve_get_ord(ord);
 		l = RLC_CEIL(bn_bits(ord), RLC_DEPTH);
 
-		n = bn_bits(k);
+		/* The comb covers RLC_DEPTH * l bits: reduce the scalar. */
+		bn_abs(m, k);
+		bn_mod(m, m, ord);
+
+		n = bn_bits(m);
 		p0 = (RLC_DEPTH) * l - 1;
 
 		w = 0;
 		p1 = p0--;
 		for (j = RLC_DEPTH - 1; j >= 0; j--, p1 -= l) {
 			w = w << 1;
-			if (p1 < n && bn_get_bit(k, p1)) {
+			if (p1 < n && bn_get_bit(m, p1)) {
 				w = w | 1;
 			}
 		}
@@ -275,7 +303,7 @@ void eb_mul_fix_combs(eb_t r, const eb_t *t, const bn_t k) {
 			p1 = p0--;
 			for (j = RLC_DEPTH - 1; j >= 0; j--, p1 -= l) {
 				w = w << 1;
-				if (p1 < n && bn_get_bit(k, p1)) {
+				if (p1 < n && bn_get_bit(m, p1)) {
 					w = w | 1;
 				}
 			}
@@ -293,6 +321,7 @@ void eb_mul_fix_combs(eb_t r, const eb_t *t, const bn_t k) {
 	}
 	RLC_FINALLY {
 		bn_free(ord);
+		bn_free(m);
 	}
 }
 
@@ -346,7 +375,7 @@ void eb_mul_pre_combd(eb_t *t, const eb_t p) {
 
 void eb_mul_fix_combd(eb_t r, const eb_t *t, const bn_t k) {
 	int i, j, d, e, w0, w1, n0, p0, p1;
-	bn_t n;
+	bn_t n, m;
 
 	if (bn_is_zero(k)) {
 		eb_set_infty(r);
@@ -354,9 +383,11 @@ void eb_mul_fix_combd(eb_t r, const eb_t *t, const bn_t k) {
 	}
 
 	bn_null(n);
+	bn_null(m);
 
 	RLC_TRY {
 		bn_new(n);
+		bn_new(m);
 
 		eb_curve_get_ord(n);
 
@@ -364,7 +395,11 @@ void eb_mul_fix_combd(eb_t r, const eb_t *t, const bn_t k) {
 		e = (d % 2 == 0 ? (d / 2) : (d / 2) + 1);
 
 		eb_set_infty(r);
-		n0 = bn_bits(k);
+		/* The comb covers RLC_DEPTH * d bits: reduce the scalar. */
+		bn_abs(m, k);
+		bn_mod(m, m, n);
+
+		n0 = bn_bits(m);
 
 		p1 = (e - 1) + (RLC_DEPTH - 1) * d;
 		for (i = e - 1; i >= 0; i--) {
@@ -374,7 +409,7 @@ void eb_mul_fix_combd(eb_t r, const eb_t *t, const bn_t k) {
 			p0 = p1;
 			for (j = RLC_DEPTH - 1; j >= 0; j--, p0 -= d) {
 				w0 = w0 << 1;
-				if (p0 < n0 && bn_get_bit(k, p0)) {
+				if (p0 < n0 && bn_get_bit(m, p0)) {
 					w0 = w0 | 1;
 				}
 			}
@@ -383,7 +418,7 @@ void eb_mul_fix_combd(eb_t r, const eb_t *t, const bn_t k) {
 			p0 = p1-- + e;
 			for (j = RLC_DEPTH - 1; j >= 0; j--, p0 -= d) {
 				w1 = w1 << 1;
-				if (i + e < d && p0 < n0 && bn_get_bit(k, p0)) {
+				if (i + e < d && p0 < n0 && bn_get_bit(m, p0)) {
 					w1 = w1 | 1;
 				}
 			}
@@ -401,6 +436,7 @@ void eb_mul_fix_combd(eb_t r, const eb_t *t, const bn_t k) {
 	}
 	RLC_FINALLY {
 		bn_free(n);
+		bn_free(m);
 	}
 }
 
